@@ -349,7 +349,10 @@ Definition strncmp2_eq (m d : bytes) : bool :=
 (* ADF_Read_All_Data(ID, m_data_type, data) on the (link-chased) node header, data buffer of [cap] bytes.
    Ok (w, data): w = 0 plain success, 33 / 55 = the NO_DATA / INCOMPLETE_DATA "warnings" (buffer zero-filled) *)
 Definition read_all_data (f : fstate) (h : node_header) (mtype : bytes) (cap : Z) : out (Z * bytes) :=
-  if negb (if fx_rtype cfg then beq mtype (c_string (nh_dtype h) 32) else strncmp2_eq mtype (nh_dtype h))
+  (* strncmp(m, type, 2) != 0 || (m[2] == 0 && type[2] != ' ' && type[2] != 0)   -- the second test is repair 08 *)
+  let c2 := nth 2 (nh_dtype h) 0 in
+  if negb (strncmp2_eq mtype (nh_dtype h)) ||
+     (fx_rtype cfg && (nth 2 (mtype ++ [0; 0; 0]) 0 =? 0) && negb ((c2 =? 32) || (c2 =? 0)))
   then Err E_INVALID_DATA_TYPE else
   '(fb, mb, teq) <- eval_dtype f (nh_dtype h) 12 ;;
   if (fb =? 0) || (nh_ndims h =? 0) then Err E_NO_DATA else
